@@ -213,8 +213,10 @@ def initial_context(cls):
 
 TYPES = """
 (* Values of arguments as far as the context mechanism is concerned: integers, None, booleans and
-   opaque objects (a token stands for one Python object; equal tokens = same object). *)
-Inductive value : Type := VInt (z : Z) | VNone | VBool (b : bool) | VTok (t : Z).
+   opaque objects (a token stands for one Python object; equal tokens = same object), and collections of
+   integers (the boards of BMPController.set_led / set_power). *)
+Inductive value : Type := VInt (z : Z) | VNone | VBool (b : bool) | VTok (t : Z)
+  | VSeq (l : list Z).   (* a collection of integers in iteration order (list, tuple, iterator, ...) *)
 (* The default of a parameter: the Required sentinel (also: no default at all, which the decorator
    turns into Required) or a value. *)
 Inductive default : Type := DRequired | DVal (v : value).
